@@ -118,6 +118,23 @@ def check(run):
 
 
 def confirm(run, v):
+    if v['rule'] == 'ARG' and v.get('ptype') in ('f32', 'f64') and ('parsed as' in v['what'] or 'modified before delivery' in v['what'] or 'float parser' in v['what']):
+        # the symbolic finding is about the mechanism (wrong parser type / value modified); show it on a literal where it matters
+        ty = v['ptype']
+        h = 'PF32' if ty == 'f32' else 'PF64'
+        for rel in (False, True):
+            cases = [{'entry': 'run', 'device': 'TY', 'input': (h.encode() + b' ' + lit + b'\n').hex(), 'cap': None} for lit in FLOAT_LITERALS]
+            obs = run.native(cases, release=rel)
+            for lit, o in zip(FLOAT_LITERALS, obs):
+                calls = [e for e in o.get('events', []) if e[0] == 'call']
+                want = [ty, str(exact_float_bits(lit, ty))]
+                if len(calls) != 1 or calls[0][2][0] != want:
+                    if rel:
+                        return True, {'literal': lit.decode(), 'delivered': calls, 'correctly_rounded': want}
+                    break
+            else:
+                return None, {'note': 'no literal of the list shows a wrong value'}
+        return None, {'note': 'not reproduced in release'}
     detail = {}
     ok_all = True
     for rel in (False, True):
